@@ -19,7 +19,7 @@ TECHNIQUE = (
 )
 LEVEL_TEXT = (
     "Generated peer histories (T_ACK/T_NAK with any number, duplicates in the same instant, responses early/late/duplicated/out of order/wrong "
-    "type, T_Disconnect at any point, frames of a stranger, silence; delays on and around the 3 s / 6 s timeouts; the application cancelling the task that runs request() while it waits for the L_Data.con, the T_ACK, the response or during the repetition, with further requests on the same open connection; slow confirmations of our own T_Connect / T_Disconnect with peer data frames crossing in that window) plus a fixed list of corner "
+    "type, T_Disconnect at any point, frames of a stranger, silence; delays on and around the 3 s / 6 s timeouts; the application cancelling the task that runs request() while it waits for the L_Data.con, the T_ACK, the response or during the repetition, with further requests on the same open connection; slow confirmations of our own T_Connect / T_Disconnect with peer data frames crossing in that window; connection-less (unnumbered) T_Data_Individual frames with request / response / restart services from the connected peer, a former peer and a stranger at every stage) plus a fixed list of corner "
     "histories are replayed against the real connection. The space of histories is unbounded, so this is exploration."
 )
 LEVEL_NOTE = (
@@ -27,7 +27,7 @@ LEVEL_NOTE = (
     "(open connection, expected number, free slot), of the response type, each injected frame at most once, or raises a ManagementConnectionError "
     "subclass within 0.05+3+3+6 s (+0.5 s slack); no injected frame makes the receive path raise; outgoing data numbers 0,1,..15,0 with the "
     "repetition reusing number and payload; every T_ACK sent is justified by a received data frame on an open connection with the expected or "
-    "preceding number. Not judged (recorded): histories where the local link layer fails (missing L_Data.con / send error) are only judged for "
+    "preceding number - never by an unnumbered frame (`TAck-sent-for-connectionless-data`), and an unnumbered frame is never returned as a response. Not judged (recorded): histories where the local link layer fails (missing L_Data.con / send error) are only judged for "
     "receive-path exceptions and the acknowledgement rule; never-retrieved future exceptions reported by the loop handler; whether an acknowledged "
     "frame that finds the one-slot mailbox full is lost. P2PConnection._receive is wrapped at class level (restored) to see when the mailbox is emptied."
 )
@@ -63,6 +63,8 @@ def _rand_item(rng):
         return (d, "rep", None, dup)
     if k < 0.80:
         return (d, "disc", None, dup)
+    if k < 0.84:
+        return (d, "cl", (rng.choice(("peer", "peer", "stranger")), rng.choice(("ddread", "ddresp", "memresp", "propread", "restart"))), dup)
     if k < 0.88:
         return (d, "sdata", rng.randrange(16), dup)
     if k < 0.92:
@@ -169,6 +171,17 @@ def corner_histories():
     h("stranger-ack-connect-disconnect", [[A, (0.012, "sack", 0, 1), (0.013, "sconn", None, 1), (0.014, "sdisc", None, 1), R]])
     h("data-after-peer-disconnect", [[A, R], []], idle=[[], [(0.0, "disc", None, 1), (0.01, "resp", ("ok", 0), 1)], []], nreq=2, gaps=[0, 0.1, 0])
     h("silence", [[A], [A]], nreq=2)
+    # connection-less (unnumbered) T_Data_Individual frames at every stage, from the connected peer, a former peer and a stranger
+    for what in ("ddread", "ddresp", "memresp", "propread", "restart"):
+        CLP, CLS = (0.0, "cl", ("peer", what), 1), (0.0, "cl", ("stranger", what), 1)
+        h(f"connectionless-{what}-everywhere",
+          [[(0.005, "cl", ("peer", what), 1), (0.005, "cl", ("stranger", what), 1), A, (0.015, "cl", ("peer", what), 1), (0.015, "cl", ("stranger", what), 2), R],
+           [A, (0.012, "cl", ("peer", what), 1), R]],
+          idle=[[CLP, CLS], [CLP, CLS], [CLP, CLS]], nreq=2, gaps=[0.1, 0.1, 0.1],
+          edges={"connect": {"con_delay": 0.5, "items": [(0.1, "cl", ("peer", what), 1), (0.1, "cl", ("stranger", what), 1)]},
+                 "disconnect": {"con_delay": 0.5, "items": [(0.1, "cl", ("peer", what), 1)]}})
+        h(f"connectionless-{what}-after-disconnect", [[A, R], []], idle=[[], [(0.0, "disc", None, 1), (0.01, "cl", ("peer", what), 1)], [(11.0, "cl", ("peer", what), 1)]],
+          nreq=2, gaps=[0, 0.1, 0])
     # our own T_Disconnect / T_Connect is confirmed slowly and peer data crosses it
     W = [(0.1, "resp", ("ok", 0), 1), (0.2, "rep", None, 1), (0.3, "resp", ("ok", 5), 1)]
     for d in ("soon", 0.01, 0.5):
@@ -264,6 +277,14 @@ def run_history(ctx, hist, judge=True):
             elif kind == "sdata":
                 st["uid"] += 1
                 link.inject(make_data(stranger, arg, "dd", st["uid"]), {"what": "sdata", "uid": st["uid"], "number": arg & 0xF})
+            elif kind == "cl":
+                who, what = arg
+                st["uid"] += 1
+                payload = {"ddread": apci.DeviceDescriptorRead(descriptor=0), "ddresp": apci.DeviceDescriptorResponse(descriptor=0, value=st["uid"]),
+                           "memresp": apci.MemoryResponse(address=st["uid"], data=b"\x01\x02"),
+                           "propread": apci.PropertyValueRead(object_index=0, property_id=11), "restart": apci.Restart()}[what]
+                link.inject(Telegram(link.own, source_address=peer if who == "peer" else stranger, tpci=tpci.TDataIndividual(), payload=payload),
+                            {"what": "cl", "uid": st["uid"], "who": who})
             elif kind == "sack":
                 link.inject(Telegram(link.own, source_address=stranger, tpci=tpci.TAck(sequence_number=arg)), {"what": "sack"})
             elif kind == "sconn":
@@ -468,6 +489,7 @@ def _judge(ctx, obs):
     connecting = False
     closing = False
     accepted = {}  # uid -> True (certain) | "maybe"
+    cl_frames = []  # received connection-less (unnumbered) data frames not yet blamed for an acknowledgement
     unacked = []  # received data frames not yet matched with a T_ACK: dict(src, n, admissible, reason)
     data_numbers = []  # (request_index, seq, payload repr) of outgoing data to the peer
     for e in obs["log"]:
@@ -501,6 +523,9 @@ def _judge(ctx, obs):
                     ctx.count("peer_disconnects_on_open_connection")
                 is_open = False
                 slot_full = {True} if slot_full == {False} else slot_full  # the refusal occupies a free slot
+            elif r["tpci"] == "TDataIndividual":
+                cl_frames.append({"src": r["src"], "time": r["time"], "apci": r.get("apci"), "uid": r.get("uid")})
+                ctx.count("connectionless_frames_from_" + ("peer" if r["src"] == PEER else "stranger"))
             elif r["tpci"] == "TDataConnected":
                 n = r["seq"]
                 if r["src"] != PEER:
@@ -545,6 +570,10 @@ def _judge(ctx, obs):
             r = e[1]
             if r["tpci"] == "TConnect" and r["dst"] == PEER:
                 connecting = True
+            if r["tpci"] == "TNak":
+                cl = next((c for c in cl_frames if c["src"] == r["dst"]), None)
+                mech = "TNak-sent-for-connectionless-data" if cl else "TNak-sent"
+                ctx.violation(mech, _witness(obs, nak=(r["time"], r["dst"], r["seq"])), f"T_NAK({r['seq']}) was sent to {r['dst']} at {r['time']}")
             if r["tpci"] == "TAck":
                 ctx.count("tack_sent")
                 # the T_ACK leaves in the instant its data frame arrived; when the link delays it, give the benefit of the doubt
@@ -552,6 +581,14 @@ def _judge(ctx, obs):
                 same = [u for u in cands if abs(u["time"] - r["time"]) < 1e-9]
                 pool = same or cands
                 m = next((u for u in pool if u["ok"]), pool[-1] if pool else None)
+                cl_now = [c for c in cl_frames if c["src"] == r["dst"] and abs(c["time"] - r["time"]) < 1e-9]
+                cl = cl_now[0] if (cl_now and not same) else (next((c for c in cl_frames if c["src"] == r["dst"]), None) if m is None else None)
+                if cl is not None:
+                    # nothing numbered from that sender explains this acknowledgement: it answers an unnumbered, connection-less frame
+                    cl_frames.remove(cl)
+                    ctx.violation("TAck-sent-for-connectionless-data", _witness(obs, ack=(r["time"], r["dst"], r["seq"]), frame=cl),
+                                  f"T_ACK({r['seq']}) was sent to {r['dst']} at {r['time']} in answer to the unnumbered T_Data_Individual {cl['apci']} received at {cl['time']}")
+                    continue
                 if m is None:
                     ctx.violation("TAck-sent-without-a-received-data-frame", _witness(obs, ack=(r["time"], r["dst"], r["seq"])),
                                   f"T_ACK({r['seq']}) to {r['dst']} at {r['time']} matches no received data frame")
@@ -615,6 +652,9 @@ def _judge(ctx, obs):
             if not isinstance(payload, want_cls):
                 ctx.violation("request-returned-response-of-unexpected-type", _witness(obs, request=res["i"]),
                               f"request {res['i']} ({res['kind']}) returned {type(payload).__name__}")
+            elif not isinstance(t.tpci, tpci.TDataConnected):
+                ctx.violation("request-returned-connectionless-frame-as-response", _witness(obs, request=res["i"]),
+                              f"request {res['i']} returned an unnumbered {type(t.tpci).__name__} frame ({type(payload).__name__}) as its response")
             elif meta is None or str(t.source_address) != PEER:
                 ctx.violation("request-returned-frame-not-sent-by-the-peer", _witness(obs, request=res["i"]),
                               f"request {res['i']} returned {t!r}")
@@ -662,7 +702,7 @@ def run(ctx):
                 "peer_disconnects_on_open_connection", "requests_cancelled_by_the_application", "requests_after_a_cancellation_returned",
                 "cancelled_while_waiting-for-confirmation", "cancelled_while_waiting-for-ack", "cancelled_while_waiting-for-response",
                 "cancelled_while_repetition-waiting-for-ack", "data_frames_while_our_connect_awaits_confirmation",
-                "data_frames_while_our_disconnect_awaits_confirmation")
+                "data_frames_while_our_disconnect_awaits_confirmation", "connectionless_frames_from_peer", "connectionless_frames_from_stranger")
     n = 0
     for hist in corner_histories():
         n += 1
